@@ -153,6 +153,11 @@ def run(ck, F):
         ck.ok("R3", "positive-control", "engine/controls/src/lib.rs", f"controls flagged: {sorted(camb)}")
     else:
         ck.undecided("R3", "positive-control", "engine/controls/src/lib.rs", f"ambient scanner reports {sorted(camb)} on the controls")
+    # .. and what the output file held before the run is an ambient input too: when the CLI opens the file itself, it opens it empty
+    # (decided under C17.R6, kept here)
+    from rules import c04 as C04
+    from rules import c17 as C17
+    C17.run(C04._Sub(ck, "R3", lambda key: key.startswith(("output-opened-empty", "open-options"))), F)
     # ---- R2
     rule_reset_on_entry(ck, F)
     # ---- R4: keys of the file table are the registered names themselves (shared with C11.R4): with a normalising key two files
